@@ -3,6 +3,7 @@ package shimhist
 import (
 	"errors"
 	"fmt"
+	"io"
 	"os"
 	"runtime/debug"
 	"sync/atomic"
@@ -124,6 +125,39 @@ func (g *Guarded) Unlock(p []byte) (err error) {
 }
 func (g *Guarded) Signers() (s []ssh.Signer, err error) {
 	if !g.do("signers", func() { s, err = g.Inner.Signers() }) {
+		return nil, ErrHung
+	}
+	// the signers handed out are used later: their signatures run under the same watchdog
+	for i, sg := range s {
+		if as, ok := sg.(ssh.AlgorithmSigner); ok {
+			s[i] = guardedAlgSigner{guardedSigner{sg, g}, as}
+		} else {
+			s[i] = guardedSigner{sg, g}
+		}
+	}
+	return
+}
+
+type guardedSigner struct {
+	inner ssh.Signer
+	g     *Guarded
+}
+
+func (s guardedSigner) PublicKey() ssh.PublicKey { return s.inner.PublicKey() }
+func (s guardedSigner) Sign(rand io.Reader, data []byte) (sig *ssh.Signature, err error) {
+	if !s.g.do("signer-sign", func() { sig, err = s.inner.Sign(rand, data) }) {
+		return nil, ErrHung
+	}
+	return
+}
+
+type guardedAlgSigner struct {
+	guardedSigner
+	as ssh.AlgorithmSigner
+}
+
+func (s guardedAlgSigner) SignWithAlgorithm(rand io.Reader, data []byte, alg string) (sig *ssh.Signature, err error) {
+	if !s.g.do("signer-sign-with-algorithm", func() { sig, err = s.as.SignWithAlgorithm(rand, data, alg) }) {
 		return nil, ErrHung
 	}
 	return
